@@ -13,6 +13,7 @@ import common, tablelib as tl, tablerun as tr
 
 LAYERS = {1: ('xmlok', 'invariant: XmlOK is false on the XML left by the call (a repeat attribute below 2 or not a number, a non-cell child of a row, a column after a row, or a row wider than the declared columns)'),
           6: ('first-row', 'invariant: rows were added to a table without rows and no column is declared'),
+          15: ('raised-changed', 'invariant: the call raised after having changed the table, leaving a row wider than the declared columns (tables with table:table-columns / header wrappers)'),
           7: ('size', 'invariant: the reported width/height are not the sums of the repeats')}
 SOFT = {11: 'state outside the modelled fragment', 12: 'initial state does not satisfy XmlOK (generator)'}
 TRUSTED = ['lxml parse/serialise (the abstraction walks etree.fromstring(table.serialize()))',
@@ -101,7 +102,7 @@ def names_phase(tier, rng, odfdo, known, only=None):
 
 def run(tier, seed, replay=None):
     return tr.run_table_check('C07', tier, seed, replay, 'chk07', LAYERS, SOFT, tl.OPS_CORE, extra=names_phase,
-                              prebuild=write_gen, extra_targets=('Tablechk', 'Gen_Names', 'Gen_Namesok'),
+                              prebuild=write_gen, extra_targets=('Tablechk', 'TableExtchk', 'Tablexml2chk', 'Gen_Names', 'Gen_Namesok'),
                               trusted=TRUSTED, modelled=MODELLED,
                               assumptions=['operations carry repeats >= 1 and integer coordinates of either sign',
                                            'tables consist of table:table-column elements followed by table:table-row elements',
